@@ -85,3 +85,25 @@ Example window_partition_examples :
   window (-7) 10 3 = (-7, 3) /\ window 2 10 3 = (-7, 3) /\ window 3 10 3 = (3, 13) /\
   window (-11) 10 0 = (-20, -10) /\ window (-20) 10 0 = (-20, -10) /\ window (-10) 10 0 = (-10, 0).
 Proof. unfold in_range. vm_compute. repeat split; intros H; discriminate H. Qed.
+
+(* translation invariance: moving t by k whole intervals moves the window by k whole intervals (k of either sign): the
+   windows met by the fill path between two times are exactly start + k * d *)
+Theorem window_shift : forall t k d off, 0 < d -> in_range t d off -> in_range (t + k * d) d off ->
+  window (t + k * d) d off = (fst (window t d off) + k * d, snd (window t d off) + k * d).
+Proof.
+  intros t k d off Hd Ht Hk. rewrite (window_closed_form t d off Hd Ht), (window_closed_form _ d off Hd Hk). cbn [fst snd].
+  replace (t + k * d - off) with (t - off + k * d) by lia. rewrite Z.div_add by lia. f_equal; lia.
+Qed.
+
+(* only the offset modulo the interval matters *)
+Theorem window_offset_mod : forall t k d off, 0 < d -> in_range t d off -> in_range t d (off + k * d) ->
+  window t d (off + k * d) = window t d off.
+Proof.
+  intros t k d off Hd Ht Hk. rewrite (window_closed_form t d off Hd Ht), (window_closed_form _ d _ Hd Hk).
+  replace (t - (off + k * d)) with (t - off + (- k) * d) by lia. rewrite Z.div_add by lia. f_equal; lia.
+Qed.
+
+Example window_shift_examples :
+  window (-7 + (-3) * 10) 10 3 = (-7 + (-3) * 10, 3 + (-3) * 10) /\ window (-7) 10 (3 + 2 * 10) = window (-7) 10 3 /\
+  window (-7) 10 (3 - 10) = (-7, 3).
+Proof. vm_compute. repeat split. Qed.
